@@ -36,6 +36,9 @@ pub enum Cancel {
 pub struct Trace {
     /// (sequence number, kind) of every seam event
     pub events: Vec<(u64, Kind)>,
+    /// per event: logical path (which parallel item the caller runs under) and a key
+    /// (hash of the `previous` joints for IK events, 0 otherwise)
+    pub where_: Vec<(u64, u64)>,
     /// value of the sequence counter when the flag was raised
     pub raised_at: Option<u64>,
     pub collisions: u64,
@@ -83,7 +86,9 @@ pub fn raise_now() {
     }
 }
 
-fn seam(kind: Kind) {
+fn seam(kind: Kind, key: u64) {
+    let task = if simctx::active() { shuttle::current::get_current_task().map(usize::from).unwrap_or(0) } else { 0 };
+    let path = simctx::with(|c| c.current_path(task));
     let raise = STATE.with(|s| {
         let mut s = s.borrow_mut();
         let Some(st) = s.as_mut() else { return None };
@@ -104,6 +109,7 @@ fn seam(kind: Kind) {
         };
         if st.keep_events {
             st.trace.events.push((st.seq, kind));
+            st.trace.where_.push((path, key));
         }
         simctx::log(simctx::EV_SEAM, kind as u64, st.seq);
         match st.cancel {
@@ -123,39 +129,43 @@ fn seam(kind: Kind) {
     }
 }
 
+pub fn joints_key(q: &Joints) -> u64 {
+    simctx::mix(&[q[0].to_bits(), q[1].to_bits(), q[2].to_bits(), q[3].to_bits(), q[4].to_bits(), q[5].to_bits()])
+}
+
 pub struct Probe {
     pub inner: Arc<dyn Kinematics>,
 }
 
 impl Kinematics for Probe {
     fn inverse(&self, pose: &Pose) -> Solutions {
-        seam(Kind::Ik);
+        seam(Kind::Ik, 0);
         self.inner.inverse(pose)
     }
     fn inverse_continuing(&self, pose: &Pose, previous: &Joints) -> Solutions {
-        seam(Kind::Ik);
+        seam(Kind::Ik, joints_key(previous));
         self.inner.inverse_continuing(pose, previous)
     }
     fn forward(&self, qs: &Joints) -> Pose {
         self.inner.forward(qs)
     }
     fn inverse_5dof(&self, pose: &Pose, j6: f64) -> Solutions {
-        seam(Kind::Ik);
+        seam(Kind::Ik, 0);
         self.inner.inverse_5dof(pose, j6)
     }
     fn inverse_continuing_5dof(&self, pose: &Pose, prev: &Joints) -> Solutions {
-        seam(Kind::Ik);
+        seam(Kind::Ik, joints_key(prev));
         self.inner.inverse_continuing_5dof(pose, prev)
     }
     fn constraints(&self) -> &Option<Constraints> {
-        seam(Kind::Sample);
+        seam(Kind::Sample, 0);
         self.inner.constraints()
     }
     fn kinematic_singularity(&self, qs: &Joints) -> Option<Singularity> {
         self.inner.kinematic_singularity(qs)
     }
     fn forward_with_joint_poses(&self, joints: &Joints) -> [Pose; 6] {
-        seam(Kind::Collision);
+        seam(Kind::Collision, 0);
         self.inner.forward_with_joint_poses(joints)
     }
 }
